@@ -362,6 +362,10 @@ func init() {
 				}
 			}
 			in := c11GenTemplate(r, 0, keys)
+			if r.Intn(3) == 0 {
+				// repetition: the same (possibly nested) placeholder text occurs twice
+				in = append(append(append(rtoks{}, in...), rtok(3+r.Intn(len(c11Chars)))), in...)
+			}
 			return c11Resolve(tbl, in, r.Intn(len(c11Delims)), nestsOrRepeats(in))
 		},
 	})
